@@ -74,22 +74,40 @@ func (n *Node) setStart(start xml.StartElement) {
 // MarshalXML is a custom XML serializer used by xml.Marshal to serialize a
 // Node structure to XML.
 func (n Node) MarshalXML(e *xml.Encoder, start xml.StartElement) (err error) {
-	start.Attr = n.Attrs
-	start.Name = n.XMLName
-
-	err = e.EncodeToken(start)
+	// As for decoding, the tree is walked with an explicit stack and not by recursion: a tree that was
+	// received can be as deep as the peer wanted it to be.
+	type open struct {
+		node *Node
+		next int // index of the next child to write
+	}
+	err = e.EncodeToken(xml.StartElement{Name: n.XMLName, Attr: n.Attrs})
 	if err != nil {
 		return err
 	}
-	err = e.EncodeElement(n.Nodes, xml.StartElement{Name: n.XMLName})
-	if err != nil {
-		return err
-	}
-	if n.Content != "" {
-		err = e.EncodeToken(xml.CharData(n.Content))
+	stack := []open{{node: &n}}
+	for len(stack) > 0 {
+		top := &stack[len(stack)-1]
+		if top.next < len(top.node.Nodes) {
+			child := &top.node.Nodes[top.next]
+			top.next++
+			err = e.EncodeToken(xml.StartElement{Name: child.XMLName, Attr: child.Attrs})
+			if err != nil {
+				return err
+			}
+			stack = append(stack, open{node: child})
+			continue
+		}
+		if top.node.Content != "" {
+			err = e.EncodeToken(xml.CharData(top.node.Content))
+			if err != nil {
+				return err
+			}
+		}
+		err = e.EncodeToken(xml.EndElement{Name: top.node.XMLName})
 		if err != nil {
 			return err
 		}
+		stack = stack[:len(stack)-1]
 	}
-	return e.EncodeToken(xml.EndElement{Name: start.Name})
+	return nil
 }
